@@ -51,6 +51,8 @@ def main():
         tag = "r" + hashlib.sha256(wt.encode()).hexdigest()[:10]
         for suf in ("", "-hooks"):
             subprocess.run(["rm", "-rf", os.path.join(VERIF, ".cache", "harness", tag + suf)])
+        subprocess.run(["rm", "-rf", os.path.join(VERIF, ".cache", "coq-" + tag), os.path.join(VERIF, ".cache", "evidence-" + tag)])
+        subprocess.run("rm -rf " + os.path.join(VERIF, ".cache", "ocaml", "*-" + tag), shell=True)
     meta["ran"] = {p: "./check %s --tier %s (VERIF_REPO=scratch worktree with the patch)" % (p, tier) for p in props}
     meta["caught_by"] = sorted(p for p in res if res[p]["exit"] == 1 and any("no-failing-input-found" not in v for v in res[p]["violations"]))
     meta["caught_without_input_by"] = sorted(p for p in res if res[p]["exit"] == 1 and p not in meta["caught_by"])
